@@ -5,6 +5,8 @@ import debpkg
 from props.C14 import oracle_args
 
 
+PROOF_FILES = ["C16.v", "C14w.v"]    # the witnesses for the .deb theorems live with C14's
+
 def members_of(memline):
     out = []
     toks = memline.split()
